@@ -7,8 +7,8 @@ CHECK = {
             "points x {chunk sink, octet sink}; every chunk list (<=C chunks, rest 0..3, lead/slack 0..1, active<=A) incl. empty and "
             "inactive chunks; lengths 1..1100 and 65534..65536 on real memory; the 2^31/2^32/SSIZE_MAX maxima +-1 through fake "
             "buffers and a segment sink that never dereferences beyond the 16 real octets; decoders over every destination buffer "
-            "state and capacities len-1,len,len+1, lengths 1..1100 and the 16-bit maxima, 32/64-bit prefix values against a claimed "
-            "capacity below them; streams of 1..3 frames (<=L octets) under all 2^(L-1) fragmentations by a chunk source, a "
+            "state and capacities len-1,len,len+1, lengths 1..1100 and the 16-bit maxima, 32-bit and SSIZE_MAX prefix values (never beyond the "
+            "kind's maximum) against real destinations of 1 and 7 octets; streams of 1..3 frames (<=L octets) under all 2^(L-1) fragmentations by a chunk source, a "
             "130-octet frame (two-octet varint prefix) under all fragmentations with <=2 cuts, and the same streams through an "
             "octet source.  The quantifier text names no random part; nothing is sampled.  Non-trivial = buffer case where "
             "offset>0 or free space != unread or n<rest, chunk list with >1 chunk or an inactive chunk, stream with >=1 cut or "
@@ -20,8 +20,11 @@ CHECK = {
         "(0 / EINTR / EAGAIN answers belong to C17)",
         "varint kind: lengths <= SSIZE_MAX-10 have to be accepted, > SSIZE_MAX (or a total that does not fit ssize_t) refused, "
         "the values in between are left open",
-        "prefix-object encoders return a status: demanded >= 0 plus a prefix view holding the encoding and a payload view "
-        "designating exactly the octets",
+        "prefix-object encoders return a status: demanded >= 0 plus a prefix view (anywhere inside the object's prefix storage) "
+        "holding the encoding and a payload view / chunk list designating exactly the octets (sequence of non-empty address ranges; "
+        "the representation of the list is not compared)",
+        "decoders: prefix values beyond the kind's maximum (varint: > SSIZE_MAX) are outside the statement and not generated; "
+        "destinations are always real exact-size blocks (no claimed capacities), so a write inside the destination is never an alarm",
         "decode_source_to_sink: only a non-negative return is demanded on success (the sink content decides); "
         "accepting decodes at the 32-bit maxima (4 GiB destinations) are not run",
         "ASan red zones around exact-size heap blocks observe writes past a destination",
